@@ -147,8 +147,8 @@ Proof. exact mux_positional. Qed.
 Print Assumptions C11_mux_positional.
 
 (** cluster.DoMultiCache: any slot -> connection map, any MOVED / ASK redirections, any map iteration
-    orders: a call that returns has at every position an answer to that position's command.  The ASKING
-    path ([askingMultiCache]) is assumed to answer its commands in order. *)
+    orders: a call that returns has at every position an answer to that position's command, given by some
+    connection directly (through its cache) or on the ASK path ([asking_do] = askingMultiCache). *)
 Theorem C11_cluster_positional :
   forall (lookup_of : N -> key -> bytes -> lk) (srv_of : N -> argv -> msg) (qerr_of : N -> argv -> option msg)
          (optin use_lru : bool) (batch : list item),
@@ -159,15 +159,13 @@ Theorem C11_cluster_positional :
     (forall w k c r, lookup_of w k c = LWait r -> filled r) ->
     (forall w a, m_typ (srv_of w a) <> 0%N) ->
     (forall w a e, qerr_of w a = Some e -> m_typ e <> 0%N) ->
-    forall (conn_of : item -> option N) (asking_do : N -> list item -> result (list rres))
-           (redirect_of : rres -> redirect) (fuel : nat) (orders : list (list N)) (maxredir : nat) (rs : list rres),
-      (forall c cmds, cmds <> [] -> (forall it, In it cmds -> In it batch) ->
-         exists resp, asking_do c cmds = Ok resp /\ Forall2 (answers lookup_of srv_of qerr_of optin c) resp cmds) ->
+    forall (conn_of : item -> option N) (redirect_of : rres -> redirect) (fuel : nat) (orders : list (list N))
+           (maxredir : nat) (rs : list rres),
       (forall g, In g (distinct_groups (map (cl_group conn_of) batch) []) ->
                  In g (match orders with o :: _ => o | [] => distinct_groups (map (cl_group conn_of) batch) [] end)) ->
-      cluster_do_multi_cache conn_of (conn_do lookup_of srv_of qerr_of optin use_lru) asking_do redirect_of
-                             fuel orders maxredir batch = Ok (inl rs) ->
-      Forall2 (fun r it => exists c, answers lookup_of srv_of qerr_of optin c r it) rs batch.
+      cluster_do_multi_cache conn_of (conn_do lookup_of srv_of qerr_of optin use_lru) (asking_do srv_of qerr_of optin)
+                             redirect_of fuel orders maxredir batch = Ok (inl rs) ->
+      Forall2 (fun r it => exists c, answers_or_asked lookup_of srv_of qerr_of optin c r it) rs batch.
 Proof. exact cluster_positional. Qed.
 Print Assumptions C11_cluster_positional.
 
@@ -219,3 +217,5 @@ Example C11_nonvacuous_mget :
                 (fun _ => None) true [bs "MGET"; bs "a"; bs "h"; bs "a"; bs "w"; bs "b"]
   = Ok (new_result (arr [nv_val "MGETa"; nv_val "hit"; nv_val "MGETa"; nv_val "waited"; nv_val "MGETb"])).
 Proof. vm_compute. reflexivity. Qed.
+
+(** askingMultiCache answers its commands in order (what one command alone is answered after ASKING) *)
